@@ -206,6 +206,8 @@ class Corruptor:
         self.inner, self.k, self.mode, self.arg = inner, k, mode, arg
         self.n = 0
         self.applied = None
+        self.current_op = "open"
+        self.applied_during = None
 
     def handle(self, frame):
         reply = self.inner.handle(frame)
@@ -225,6 +227,7 @@ class Corruptor:
         else:
             out = bytes(self.arg)
         self.applied = (len(reply), out)
+        self.applied_during = self.current_op
         return out
 
     def tcp_closed(self):
@@ -234,7 +237,7 @@ class Corruptor:
         return getattr(self.inner, name)
 
 
-def run_ops(plc_factory, ops, discs, label):
+def run_ops(plc_factory, ops, discs, label, cor=None):
     """execute public calls; only PycommError may escape"""
     from pycomm3.exceptions import PycommError
     results = []
@@ -249,6 +252,8 @@ def run_ops(plc_factory, ops, discs, label):
         discs.append(Disc(f"{label}.open.foreign.{type(e).__name__}.{S.where(e)}", repr(e)[:300]))
         return None, results
     for name, fn in ops:
+        if cor is not None:
+            cor.current_op = name
         try:
             results.append((name, fn(plc)))
         except PycommError:
@@ -258,6 +263,8 @@ def run_ops(plc_factory, ops, discs, label):
                 raise
             discs.append(Disc(f"{label}.{name}.foreign.{type(e).__name__}.{S.where(e)}", repr(e)[:300]))
             results.append((name, None))
+    if cor is not None:
+        cor.current_op = "close"
     try:
         plc.close()
     except PycommError:
@@ -272,6 +279,7 @@ def run_ops(plc_factory, ops, discs, label):
 def check_corrupt(case):
     """reads/writes/generic on a LogixDriver while the k-th reply is corrupted"""
     from pycomm3 import LogixDriver
+    from pycomm3.exceptions import PycommError
     discs = []
     p, mem, tgt = S.build_target(case)
     cor = Corruptor(tgt, case["k"], case["mode"], case["arg"])
@@ -290,7 +298,15 @@ def check_corrupt(case):
             ops = [("write", lambda plc: plc.write(*pairs) if len(pairs) > 1 else plc.write(pairs[0][0], pairs[0][1]))]
         ops.append(("generic", lambda plc: plc.generic_message(service=0x0E, class_code=1, instance=1, attribute=1, connected=True)))
         ops.append(("time", lambda plc: plc.get_plc_time()))
-        plc, results = run_ops(factory, ops, discs, "corrupt")
+        plc, results = run_ops(factory, ops, discs, "corrupt", cor)
+        # a reply cut before its status words (encapsulation status at 8-11, CIP status at 42 / 48) is never reported as success:
+        # the call that consumed it must not come back all-truthy
+        if cor.applied is not None and case["mode"] == "truncate" and len(cor.applied[1]) < 43 and cor.applied_during not in (None, "open"):
+            for name, res in results:
+                if name == cor.applied_during and res is not PycommError and res is not None:
+                    tags = res if isinstance(res, list) else [res]
+                    if tags and all(bool(t) for t in tags):
+                        discs.append(Disc(f"corrupt.short-reply-success.{name}", f"the reply consumed by {name} was cut to {len(cor.applied[1])} bytes, yet every result is truthy: {str(tags[:2])[:200]}"))
         # a reply too short to contain its status words is never reported as success: a RegisterSession reply (the
         # first reply of the session) cut before its status word must not leave the driver with a session
         if cor.applied is not None and case["mode"] == "truncate" and case["k"] == 0:
